@@ -131,8 +131,9 @@ pub fn run_round(r: &Round) -> RoundResult {
             }
         }
     }
-    if eos && !r.stop && track.verif_queue().len() != 0 {
-        fails.push((sig("eos-before-drained"), format!("{} sample(s) left in the queue at end-of-stream", track.verif_queue().len())));
+    let queued = { let (h, t) = track.verif_queue().verif_indices(); t.wrapping_sub(h) };
+    if eos && !r.stop && queued != 0 {
+        fails.push((sig("eos-before-drained"), format!("{queued} sample(s) left in the queue at end-of-stream")));
     }
     let received = got.len();
     drop(got);
